@@ -462,6 +462,7 @@ Proof.
   assert (Hc : forall s5, SFb n m t En s5 (if eff_cancelled s5 (g_scope (groups s5 g)) then s5
                                           else scope_cancel s5 (g_scope (groups s5 g)) false)).
   { intros s5. destruct (eff_cancelled s5 _); [apply SFb_refl|apply SFb_scope_cancel]. }
+  assert (Hsc : forall s5, SFb n m t En s5 (scope_cancel s5 (g_scope (groups s5 g)) false)) by (intros s5; apply SFb_scope_cancel).
   assert (Ha : forall e, SFb n m t En s4 (upd_group s4 g (add_exc t e))) by (intros e; sby_eq).
   destruct (k_done (tasks s0 t)) as [[v|e|e]|].
   - destruct (k_startfut (tasks s0 t)) as [f|]; [|apply SFb_refl].
@@ -469,17 +470,17 @@ Proof.
   - destruct (k_startfut (tasks s0 t)) as [f|].
     + destruct (f_st (futs s4 f)).
       * apply SFb_fc.
-      * destruct (is_cancel e); [apply Hc|]. eapply SFb_trans; [apply Ha|apply Hc].
-      * destruct (is_cancel e); [apply Hc|]. eapply SFb_trans; [apply Ha|apply Hc].
-      * destruct (is_cancel e); [apply SFb_refl|]. eapply SFb_trans; [apply Ha|apply Hc].
-    + destruct (is_cancel e); [apply Hc|]. eapply SFb_trans; [apply Ha|apply Hc].
+      * destruct (is_cancel e); [apply Hc|]. eapply SFb_trans; [apply Ha|apply Hsc].
+      * destruct (is_cancel e); [apply Hc|]. eapply SFb_trans; [apply Ha|apply Hsc].
+      * destruct (is_cancel e); [apply SFb_refl|]. eapply SFb_trans; [apply Ha|apply Hsc].
+    + destruct (is_cancel e); [apply Hc|]. eapply SFb_trans; [apply Ha|apply Hsc].
   - destruct (k_startfut (tasks s0 t)) as [f|].
     + destruct (f_st (futs s4 f)).
       * apply SFb_fc.
-      * destruct (is_cancel e); [apply Hc|]. eapply SFb_trans; [apply Ha|apply Hc].
-      * destruct (is_cancel e); [apply Hc|]. eapply SFb_trans; [apply Ha|apply Hc].
-      * destruct (is_cancel e); [apply SFb_refl|]. eapply SFb_trans; [apply Ha|apply Hc].
-    + destruct (is_cancel e); [apply Hc|]. eapply SFb_trans; [apply Ha|apply Hc].
+      * destruct (is_cancel e); [apply Hc|]. eapply SFb_trans; [apply Ha|apply Hsc].
+      * destruct (is_cancel e); [apply Hc|]. eapply SFb_trans; [apply Ha|apply Hsc].
+      * destruct (is_cancel e); [apply SFb_refl|]. eapply SFb_trans; [apply Ha|apply Hsc].
+    + destruct (is_cancel e); [apply Hc|]. eapply SFb_trans; [apply Ha|apply Hsc].
   - destruct (k_startfut (tasks s0 t)) as [f|]; [|apply SFb_refl].
     destruct (f_st (futs s4 f)); try apply SFb_refl. apply SFb_fc.
 Qed.
